@@ -8,7 +8,7 @@ out=seeded/RESULTS.md
 { echo "# Seeded changes against the quick checks"; echo; echo "(written by tools/seedmatrix.sh on $(date -u +%Y-%m-%dT%H:%MZ); /verif at $(git rev-parse --short HEAD), /repo at $(git -C /repo rev-parse --short HEAD))"; echo; echo "| seed | property | verdict | replay kind | what no longer checks | message |"; echo "|---|---|---|---|---|---|"; } > $out
 for s in "${seeds[@]}"; do
   p=${s%%-*}
-  git -C /repo apply seeded/$s/patch.diff || { echo "| $s | $p | PATCH-DOES-NOT-APPLY | | | |" >> $out; continue; }
+  git -C /repo apply /verif/seeded/$s/patch.diff || { echo "| $s | $p | PATCH-DOES-NOT-APPLY | | | |" >> $out; continue; }
   line=$(python3 check.py $p --tier quick 2>&1 | grep -E "^VIOLATION" | head -1)
   git -C /repo checkout -- . ; git -C /repo clean -fdq -- src examples tests 2>/dev/null
   if [ -z "$line" ]; then echo "| $s | $p | **MISSED** | | | |" >> $out; echo "$s MISSED"; continue; fi
